@@ -239,11 +239,13 @@ def oracle(case, r):
                 if res.get('keys') != want:
                     return 'iterate_map(%s) enumerated %s, mapped keys are %s' % (op[1], res.get('keys'), want)
         return None
-    # typed slots: only well-typed histories are judged by the abstract map (writes of a wrong type are the malformed stream)
+    # typed slots: the abstract map per index; a write of a value the declared type rejects raises and must change nothing
     slots = {}
     for op, res in zip(case['ops'], r['res']):
         name = op[0]
         if isinstance(res, dict) and 'exc' in res:
+            if name == 'set' and op[1][0] in slots:
+                continue        # a write the typed array rejected (TypeError / OverflowError) is not a write: the slot reads as before
             return None
         if name == 'iterate':
             got_idx = [e[0][0] if e[0] else None for e in res.get('dump', [])]
